@@ -1,5 +1,5 @@
 //@unit monitor_done
-//@props C15
+//@props C15 C14 C13
 // Contracts on the pruning predicate of the channel monitor (vls-core/src/monitor.rs):
 // State::{depth_of, deep_enough_and_saw_node_forget, is_done}.
 use vstd::prelude::*;
@@ -69,7 +69,13 @@ impl State {
 // both share one State behind a mutex (sequential model, prelude/seqmutex.rs) ----
 //@type vls-core/src/monitor.rs :: ChainMonitorBase
 #[verifier::external_body] pub struct VxProvider { _p: u8 }
+// Arc<Mutex<Option<BlockDecodeState>>>: the partial decode state of the block being streamed to this monitor, if any
 #[verifier::external_body] pub struct VxDecodeSlot { _p: u8 }
+impl VxDecodeSlot {
+    pub uninterp spec fn pending(&self) -> bool;
+    // `self.decode_state.lock().expect("lock").take()` (sequential model): the slot is emptied
+    #[verifier::external_body] pub fn vx_take(&mut self) ensures !final(self).pending() { unimplemented!() }
+}
 //@type vls-core/src/monitor.rs :: ChainMonitor
 
 impl ChainMonitorBase {
@@ -96,6 +102,16 @@ impl ChainMonitorBase {
 }
 
 impl ChainMonitor {
+//@fn vls-core/src/monitor.rs :: impl ChainListener for ChainMonitor :: on_streamed_block_start props=C14,C13
+//@sigsub /&self/ => &mut self
+    ensures
+        // a monitor that is told a new streamed block begins holds no partial decode state of an earlier one (a streamed block
+        // the tracker refused never reaches on_*_streamed_block_end): the next on_block_start finds the fresh state it asserts
+        !final(self).decode_state.pending(),                                                         //[C14.stream.start-drops-partial-decode-state] [C13.stream.start-drops-partial-decode-state]
+        final(self).state == old(self).state, final(self).funding_outpoint == old(self).funding_outpoint,
+//@sub /self\.decode_state\.lock\(\)\.vx_expect\(\)\.take\(\);/ => self.decode_state.vx_take();
+//@end
+
 //@fn vls-core/src/monitor.rs :: impl ChainMonitor :: is_done props=C15
     requires self.state.val.height < u32::MAX,
     ensures r == safely_buried(self.state.val),                                                      //[C15.monitor.is-done-is-the-shared-state]
